@@ -298,6 +298,14 @@ def wl_C06(tier, rng):
         kind = rng.choice(KINDS_ALL) if cls in SIMPLE else "-"
         n, es, vals = target_graph(rng, cls, kind)
         ops = linearise(rng, cls, kind, 0, n, es, vals) + linearise(rng, cls, kind, 1, n, es, vals)
+        if rng.random() < 0.4:
+            # calls the library rejects (out-of-range vertex) must leave nothing behind that `==` can see
+            rej = [c for c in invalid_calls(cls, kind, n, rng, full=True, okv=rng.randrange(n) if n else 0)
+                   if c.split()[0] in ("addEdge", "addMultiedge", "addReciprocalEdge", "addReciprocalMultiedge", "removeEdge",
+                                       "removeMultiedge", "setEdgeLabel", "setEdgeMultiplicity", "setEdgeWeight",
+                                       "removeVertexFromEdgeList", "q")]
+            rng.shuffle(rej)
+            ops += rej[:8]
         ops += ["eq 0 1", "eq 1 0", "eq 0 0"]
         # a variant differing in exactly one edge / label / size
         ops.append("copy 1 2")
@@ -609,9 +617,17 @@ def wl_C09(tier, rng):
 
 # ------------------------------------------------------------------ C10: subgraphs
 def wl_C10(tier, rng):
-    def one(cls, kind, n, es, labels, subsets):
+    def one(cls, kind, n, es, labels, subsets, rejected=False):
         ops = gen.build_ops(cls, kind, n, es, labels=labels)
-        for S in subsets:
+        for k, S in enumerate(subsets):
+            if k == len(subsets) // 2 or (rejected and k % 2 == 1):
+                # a rejected call in between (valid members first, then one that is out of range): the calls
+                # after it must answer as if it had never been made
+                bad = list(subsets[(k * 7 + 3) % len(subsets)]) + [n + (k % 3) * (k % 3)]
+                if k % 4 == 3:
+                    bad[-1] = 4294967295
+                sb = " ".join(map(str, bad))
+                ops += ["subgraph 0 1 S " + sb, "subgraphremap 0 2 S " + sb]
             s = " ".join(map(str, S))
             ops.append(("subgraph 0 1 S " + s).rstrip())
             ops.append(("subgraphremap 0 2 S " + s).rstrip())
@@ -633,7 +649,10 @@ def wl_C10(tier, rng):
         n, es = wide.shape(rng, cls, kind)
         labels = [gen.label_tok(rng, kind) for _ in es]
         ops = ["mode quiet"] + gen.build_ops(cls, kind, n, es, labels=labels)
-        for S in wide.subsets(rng, n):
+        for k, S in enumerate(wide.subsets(rng, n)):
+            if k in (1, 4):
+                sb = " ".join(map(str, [v for v in range(n) if rng.random() < 0.5] + [n + rng.choice([0, 1, 64])]))
+                ops += ["subgraph 0 1 S " + sb, "subgraphremap 0 2 S " + sb]
             sS = " ".join(map(str, S))
             ops += [("subgraph 0 1 S " + sS).rstrip(), "dump 1", ("subgraphremap 0 2 S " + sS).rstrip(), "dump 2"]
         yield ({"cls": cls, "kind": kind, "n": n, "len": len(ops), "family": "wide"}, ops)
@@ -649,7 +668,7 @@ def wl_C10(tier, rng):
             rng.shuffle(S)
             subsets.append(S)
         subsets += [[], list(range(n))]
-        yield one(cls, kind, n, es, labels, subsets)
+        yield one(cls, kind, n, es, labels, subsets, rejected=rng.random() < 0.5)
 
 
 # ------------------------------------------------------------------ C16: forced duplicates
@@ -973,6 +992,20 @@ def wl_C19(tier, rng):
             ops = weighted_ops(cls, n, wes) + [f"dijkstra 0 {s_}" for s_ in rng.sample(wide.special(n), min(4, len(wide.special(n))))]
         yield ({"cls": cls, "kind": "-", "n": n, "len": len(ops), "family": "wide"}, ops)
     yield from scaled_weight_family(tier, rng, scale(tier, 60, 1200))
+    # decrease-key stress: sparse graphs (so that V+E+1 is tight) whose weights are spread widely (so that many
+    # queued vertices get a shorter distance later); every vertex as source
+    for _ in range(scale(tier, 150, 3000)):
+        cls = rng.choice(WEIGHTED)
+        n = rng.randint(8, scale(tier, 16, 24))
+        m = rng.randint(2 * n, 5 * n // 2 + 2)
+        es = sorted({gen.pick_pair(rng, n, loops=0.05) for _ in range(m)})
+        rng.shuffle(es)
+        if cls == "uw":
+            es = und_canon(es)
+        top = rng.choice([12, 30, 100])
+        wes = [(i, j, rng.randint(0, top)) for (i, j) in es]
+        ops = weighted_ops(cls, n, wes) + [f"dijkstra 0 {s_}" for s_ in range(n)]
+        yield ({"cls": cls, "kind": "-", "n": n, "len": len(ops), "family": "decrease-key"}, ops)
     # scan counts on all small graphs and random ones (same histories as C11/C12, fewer)
     for cls in SIMPLE:
         und = cls == "und"
